@@ -305,6 +305,13 @@ def arith(op, a, b, interp=None):
   isreal = "real" in (ka, kb)
   want = "real" if isreal else "int"
   za, zb = to_z3(a, want), to_z3(b, want)
+  if isreal and interp is not None and interp.float_uf and op in ("*", "/"):
+    if op == "*" and not z3.is_rational_value(za) and not z3.is_rational_value(zb):
+      # commutative: order operands canonically so that a*b and b*a are the same term
+      x, y = (za, zb) if za.get_id() <= zb.get_id() else (zb, za)
+      return z3.Function("fmul", R, R, R)(x, y)
+    if op == "/" and not z3.is_rational_value(zb):
+      return z3.Function("fdiv", R, R, R)(za, zb)
   if op == "+":
     return z3.simplify(za + zb)
   if op == "-":
@@ -681,7 +688,7 @@ class Access:
 
 
 class Obl:
-  __slots__ = ("kind", "guard", "cond", "where", "info")
+  __slots__ = ("kind", "guard", "cond", "where", "info", "strict")
 
   def __init__(self, kind, guard, cond, where, info=None):
     self.kind, self.guard, self.cond, self.where, self.info = kind, guard, cond, where, info
@@ -1038,12 +1045,29 @@ class Interp:
   def subscript_set(self, fr, t, base, idx, val, g):
     if isinstance(base, ArrRef):
       self.store(base, idx, val, g, self.where(fr, t))
+    elif isinstance(base, Vec) and isinstance(t.value, ast.Subscript) and isinstance(self.expr_noeffect(fr, t.value.value), ArrRef):
+      # arr[i, j][k] = v : read-modify-write of one component of an array element
+      arr = self.expr_noeffect(fr, t.value.value)
+      aidx = self.index(fr, t.value.slice)
+      new = self.vec_set(base, idx, val)
+      self.store(arr, aidx, new, g, self.where(fr, t))
     elif isinstance(base, Vec):
       new = self.vec_set(base, idx, val)
       merged = new if g is True else ite(g, new, base)
       base.c = merged.c
     else:
       raise Unsupported("subscript store")
+
+  def expr_noeffect(self, fr, e):
+    """evaluate an expression without recording obligations/accesses (used to classify store targets)."""
+    no, na = len(self.obl), len(self.accesses)
+    try:
+      return self.expr(fr, e)
+    except Unsupported:
+      return None
+    finally:
+      del self.obl[no:]
+      del self.accesses[na:]
 
   def vec_set(self, v, idx, val):
     new = v.copy()
@@ -1091,7 +1115,9 @@ class Interp:
       hi = cell.shape[d]
       ok = And(cmp(">=", i, arith("*", hi, -1)), cmp("<", i, hi))
       if ok is not True:
-        self.obl.append(Obl("bounds", g, ok, where, (kindstr, cell.name, d)))
+        o = Obl("bounds", g, ok, where, (kindstr, cell.name, d))
+        o.strict = And(cmp(">=", i, 0), cmp("<", i, hi))
+        self.obl.append(o)
     if self.track_access:
       self.accesses.append(Access(kindstr, cell, full, g, where, val, next(self.seq)))
 
@@ -1129,7 +1155,9 @@ class Interp:
       hi = cell.shape[d]
       ok = And(cmp(">=", i, arith("*", hi, -1)), cmp("<", i, hi))
       if ok is not True:
-        self.obl.append(Obl("bounds", g, ok, where, ("V", cell.name, d)))
+        o = Obl("bounds", g, ok, where, ("V", cell.name, d))
+        o.strict = And(cmp(">=", i, 0), cmp("<", i, hi))
+        self.obl.append(o)
 
   def store(self, ref, idx, val, g, where):
     idx = tuple(norm_scalar(i) for i in idx)
@@ -1524,6 +1552,10 @@ class Interp:
       if x < 0:
         raise Unsupported("sqrt of negative constant")
       return math.sqrt(x)
+    if self.float_uf:
+      s = z3.Function("fsqrt", R, R)(x)
+      self.assumes.append(s >= 0)
+      return s
     s = z3.Real(f"sqrt!{next(self.fresh)}")
     self.assumes.append(z3.Implies(x >= 0, z3.And(s >= 0, s * s == x)))
     return s
@@ -1610,6 +1642,8 @@ class Interp:
       return vabs(a[0])
     if key == "sign":
       x = a[0]
+      if isinstance(x, Vec):
+        return Vec([self.builtin(fr, "sign", [c], e) for c in x.c], x.shape, x.dt)
       if not is_sym(x):
         return (-1.0 if x < 0 else 1.0) if kind(x) == "real" else (-1 if x < 0 else 1)
       return ite(cmp("<", x, 0), -1.0 if kind(x) == "real" else -1, 1.0 if kind(x) == "real" else 1)
